@@ -355,8 +355,10 @@ def _chunk(typ, body):
     return struct.pack('>I', len(body)) + typ + body + struct.pack('>I', zlib.crc32(typ + body) & 0xffffffff)
 
 
-def png_encode(w, h, rows, filters=None):
-    """rows: list of RGBA byte rows.  filters: optional list of filter types per row (0..4)."""
+def png_encode(w, h, rows, filters=None, extra_chunks=(), idat_pieces=1):
+    """rows: list of RGBA byte rows.  filters: optional list of filter types per row (0..4).  extra_chunks: ancillary chunks
+    (type, data) placed between IHDR and IDAT, as image editors write them (gAMA, pHYs, bKGD, tEXt ...); idat_pieces: the compressed
+    stream split over that many IDAT chunks."""
     stride = w * 4
     raw = bytearray()
     prev = bytes(stride)
@@ -377,8 +379,12 @@ def png_encode(w, h, rows, filters=None):
             raw += bytes((row[i] - _paeth(row[i - 4] if i >= 4 else 0, prev[i], prev[i - 4] if i >= 4 else 0)) & 255
                          for i in range(stride))
         prev = row
+    z = zlib.compress(bytes(raw), 6)
+    n = max(1, idat_pieces)
+    step = (len(z) + n - 1) // n
+    idat = b''.join(_chunk(b'IDAT', z[i:i + step]) for i in range(0, len(z), step))
     return (PNG_SIG + _chunk(b'IHDR', struct.pack('>IIBBBBB', w, h, 8, 6, 0, 0, 0)) +
-            _chunk(b'IDAT', zlib.compress(bytes(raw), 6)) + _chunk(b'IEND', b''))
+            b''.join(_chunk(t, d) for t, d in extra_chunks) + idat + _chunk(b'IEND', b''))
 
 
 CART_W, CART_H = 160, 205
